@@ -39,7 +39,7 @@ cart_min_size (const SF_CART_INFO* info)
 SF_CART_INFO_16K*
 cart_var_alloc (void)
 {	SF_CART_INFO_16K* thing ;
-	thing = malloc (sizeof (SF_CART_INFO_16K)) ;
+	thing = calloc (1, sizeof (SF_CART_INFO_16K)) ;
 	return thing ;
 } /* cart_var_alloc */
 
